@@ -26,9 +26,10 @@ type dcOp struct {
 	Kind     string `json:"k"` // create | close | rclose | pcclose | send | sleep
 	Ch       int    `json:"ch,omitempty"`
 	Graceful bool   `json:"g,omitempty"`
-	ID       int    `json:"id,omitempty"`  // create: explicit negotiated id (0 = in-band, id assigned by pion)
-	Ms       int    `json:"ms,omitempty"`  // sleep
-	Peer     int    `json:"p,omitempty"`   // 0 = A, 1 = B
+	ID       int    `json:"id,omitempty"` // create: explicit id (0 = in-band, id assigned by pion)
+	InBand   bool   `json:"inband,omitempty"` // create with an explicit id: announced in-band (DCEP) instead of negotiated on both sides
+	Ms       int    `json:"ms,omitempty"` // sleep
+	Peer     int    `json:"p,omitempty"`  // 0 = A, 1 = B
 }
 
 type dcCase struct {
@@ -61,6 +62,10 @@ func dcGenFor(prop string) func(seed uint64, idx, total int, tier string) any {
 					op := dcOp{Kind: "create", Peer: peer, Ch: nch}
 					if prop == "C18" && r.Bool(0.3) {
 						op.ID = vfPick(r, []int{1, 2, 3, 4, 5, 6, 7, 100, 101, 1000, 65534})
+						if r.Bool(0.5) {
+							// the application picks the stream id itself (any parity) and lets DCEP announce it
+							op.ID, op.InBand = r.Range(1, 8), true
+						}
 					}
 					nch++
 					ops = append(ops, op)
@@ -93,6 +98,9 @@ type dcObj struct {
 	opens    int
 	closes   int
 	explicit bool
+	invAt    int // sampler tick at which CreateDataChannel was invoked (local channels)
+	claimAt  int // sampler tick by which the id was certainly registered with the transport: CreateDataChannel returned (local) / OnDataChannel fired (remote)
+	nilAt    int // last sampler tick at which the object was seen without an id
 	closeRet bool // a Close()/GracefulClose() on this object returned
 }
 
@@ -146,6 +154,7 @@ func dcRunFor(prop string) func(t *testing.T, cj []byte, res *vfResult) {
 				nw.Stop()
 				res.SimNs = int64(time.Since(t0))
 			}()
+			tick := 0
 			track := func(o *dcObj) {
 				mu.Lock()
 				objs = append(objs, o)
@@ -158,6 +167,7 @@ func dcRunFor(prop string) func(t *testing.T, cj []byte, res *vfResult) {
 				p.pc.OnDataChannel(func(d *DataChannel) {
 					o := &dcObj{label: d.Label(), side: "remote", peer: pi, d: d}
 					mu.Lock()
+					o.claimAt = tick
 					remote[fmt.Sprintf("%d/%s", pi, o.label)] = o // (no instrumented call while holding the harness mutex)
 					mu.Unlock()
 					track(o)
@@ -188,7 +198,6 @@ func dcRunFor(prop string) func(t *testing.T, cj []byte, res *vfResult) {
 				}
 			}
 			s := simrt.NewSched(c.SchedSeed, c.Strat, "datachannel.go", "sctptransport.go", "peerconnection.go:close", "peerconnection.go:CreateDataChannel", "harness:")
-			tick := 0
 			sample := func() {
 				mu.Lock()
 				defer mu.Unlock()
@@ -201,6 +210,8 @@ func dcRunFor(prop string) func(t *testing.T, cj []byte, res *vfResult) {
 					id := -1
 					if o.d.id != nil {
 						id = int(*o.d.id)
+					} else {
+						o.nilAt = tick
 					}
 					if n := len(o.ids); n == 0 || o.ids[n-1] != id {
 						o.ids = append(o.ids, id)
@@ -238,22 +249,32 @@ func dcRunFor(prop string) func(t *testing.T, cj []byte, res *vfResult) {
 							if op.ID > 0 {
 								id, neg := uint16(op.ID), true
 								init = &DataChannelInit{ID: &id, Negotiated: &neg}
+								if op.InBand {
+									init = &DataChannelInit{ID: &id}
+								}
 							}
+							mu.Lock()
+							invAt := tick
+							mu.Unlock()
 							d, err := peers[op.Peer].pc.CreateDataChannel(label, init)
 							mu.Lock()
-							lines = append(lines, fmt.Sprintf("t%d create %s peer=%d id=%d err=%v", ti, label, op.Peer, op.ID, err))
+							retAt := tick
+							lines = append(lines, fmt.Sprintf("t%d create %s peer=%d id=%d inband=%v err=%v (steps %d..%d)", ti, label, op.Peer, op.ID, op.InBand, err, invAt, retAt))
 							mu.Unlock()
 							if err != nil {
 								continue
 							}
-							o := &dcObj{label: label, side: "local", peer: op.Peer, d: d, explicit: op.ID > 0}
+							o := &dcObj{label: label, side: "local", peer: op.Peer, d: d, explicit: op.ID > 0, invAt: invAt, claimAt: retAt}
 							track(o)
 							mu.Lock()
 							chans[op.Ch] = o
 							mu.Unlock()
-							if op.ID > 0 { // negotiated channels are created on both sides
+							if op.ID > 0 && !op.InBand { // negotiated channels are created on both sides
 								if d2, err := peers[1-op.Peer].pc.CreateDataChannel(label, init); err == nil {
-									track(&dcObj{label: label, side: "local", peer: 1 - op.Peer, d: d2, explicit: true})
+									mu.Lock()
+									ret2 := tick
+									mu.Unlock()
+									track(&dcObj{label: label, side: "local", peer: 1 - op.Peer, d: d2, explicit: true, invAt: retAt, claimAt: ret2})
 								}
 							}
 						case "close":
@@ -449,13 +470,23 @@ func dcRunFor(prop string) func(t *testing.T, cj []byte, res *vfResult) {
 						// the property is about ids pion assigns: the channel that got the id later must be
 						// one pion chose the id for (an application passing an id that is already taken is
 						// the application's mistake; pion does not check it)
-						later := o
-						if prev.idAt > o.idAt {
-							later = prev
+						auto := func(x *dcObj) bool { return x.side == "local" && !x.explicit }
+						asgLo := func(x *dcObj) int { // pion chose x's id after this step
+							if x.nilAt > x.invAt {
+								return x.nilAt
+							}
+							return x.invAt
 						}
-						if later.side == "local" && !later.explicit {
-							res.violate("assigned-stream-id-already-in-use", fmt.Sprintf("peer %d: channel %s was assigned stream id %d, which channel %s already had", pi, later.label, final, map[bool]string{true: o.label, false: prev.label}[later == prev]))
-						} else {
+						switch {
+						case auto(o) && auto(prev):
+							res.violate("assigned-stream-id-already-in-use", fmt.Sprintf("peer %d: channels %s and %s were both assigned stream id %d", pi, prev.label, o.label, final))
+						case auto(o) && asgLo(o) > prev.claimAt:
+							res.violate("assigned-stream-id-already-in-use", fmt.Sprintf("peer %d: channel %s was assigned stream id %d after step %d, which %s channel %s had held since step %d or earlier", pi, o.label, final, asgLo(o), prev.side, prev.label, prev.claimAt))
+						case auto(prev) && asgLo(prev) > o.claimAt:
+							res.violate("assigned-stream-id-already-in-use", fmt.Sprintf("peer %d: channel %s was assigned stream id %d after step %d, which %s channel %s had held since step %d or earlier", pi, prev.label, final, asgLo(prev), o.side, o.label, o.claimAt))
+						default:
+							// an id the application chose itself (or a remote peer's) that meets a pion-assigned
+							// one while both calls were in flight, or two application-chosen ids: not pion's choice
 							res.stat("explicit_or_remote_id_collisions_not_counted", 1)
 						}
 					}
@@ -513,12 +544,12 @@ func init() {
 		id := id
 		vfRegister(&vfProp{
 			ID: id, Level: "exploration", ReplayClass: "decision-exact",
-			Rule: "case = a real connected (or still connecting) PeerConnection pair with a bootstrap data channel, and 2-4 tasks running create (in-band or negotiated with explicit id), local Close/GracefulClose, remote close, Send, PeerConnection.Close/GracefulClose and sleeps; the seeded cooperative scheduler picks who runs at every lock/atomic site of datachannel.go, sctptransport.go, PeerConnection.close and CreateDataChannel on both peers, ICE/DTLS/SCTP/network run free in fake time; a sampler records every channel's readyState and stream id at every step; non-trivial = >=1 preemption and >=2 channel objects, distinct = hash of (sampled histories, schedule)",
-			Real: []string{"both PeerConnections with real ICE, DTLS, SCTP, pion/datachannel; DataChannel/SCTPTransport code instrumented on both peers", "vnet"},
-			Stub: []string{"network: fault-free simulated network with constant delay", "signaling: in-process, non-trivial only in the 'starting' phase where tasks run while transports come up"},
+			Rule:        "case = a real connected (or still connecting) PeerConnection pair with a bootstrap data channel, and 2-4 tasks running create (in-band or negotiated with explicit id), local Close/GracefulClose, remote close, Send, PeerConnection.Close/GracefulClose and sleeps; the seeded cooperative scheduler picks who runs at every lock/atomic site of datachannel.go, sctptransport.go, PeerConnection.close and CreateDataChannel on both peers, ICE/DTLS/SCTP/network run free in fake time; a sampler records every channel's readyState and stream id at every step; non-trivial = >=1 preemption and >=2 channel objects, distinct = hash of (sampled histories, schedule)",
+			Real:        []string{"both PeerConnections with real ICE, DTLS, SCTP, pion/datachannel; DataChannel/SCTPTransport code instrumented on both peers", "vnet"},
+			Stub:        []string{"network: fault-free simulated network with constant delay", "signaling: in-process, non-trivial only in the 'starting' phase where tasks run while transports come up"},
 			Assumptions: []string{"dependencies run free between webrtc sites, so replay is decision-exact", "C20 'once Close has been called and the transport is gone': checked after both PeerConnections were closed at the end of the run"},
-			Shrink: []string{"tasks", "tasks.0", "tasks.1", "tasks.2", "tasks.3"},
-			Gen:    dcGenFor(id), Run: dcRunFor(id),
+			Shrink:      []string{"tasks", "tasks.0", "tasks.1", "tasks.2", "tasks.3"},
+			Gen:         dcGenFor(id), Run: dcRunFor(id),
 		})
 	}
 }
